@@ -1,2 +1,292 @@
-(** C03 - theorem file under construction *)
-From Vivid Require Import Actor.Core.
+(** C03 - no user message is silently lost: processed, stashed, or dead-lettered.
+
+    Model: Actor/Core.v (ActorCore) - [resolve] = System.findMailbox with the reference caches, [deliver] =
+    Enqueue on the resolved mailbox (deadLetterMailbox for an unknown local target), [dispatch] =
+    Context.HandleEnvelop, the guard's dead-letter handling, Stash / Unstash.  User code, supervision decisions
+    and hook outcomes are data, so every theorem holds for all of them; [reachable] = the state after SOME event
+    list (schedule) from SOME external scripts.  Derived notions: Actor/SpecMail.v.  Statements only; proofs in
+    Actor/ProofsMailBase.v, Actor/ProofsMail.v, Actor/ProofsMailInv.v, Actor/ProofsMailWf.v, Actor/ProofsMailAcct.v. *)
+From Coq Require Import List NArith ZArith Bool.
+From Vivid Require Import Actor.Core Actor.CoreRun Actor.SpecMail Actor.ProofsMailBase Actor.ProofsMail Actor.ProofsMailInv Actor.ProofsMailWf Actor.ProofsMailAcct Actor.ProofsMailReg Actor.ProofsMailGhost.
+Import ListNotations.
+
+(** ============================ (a) routing: findMailbox ============================ *)
+
+(** an envelope is routed to an actor's mailbox only if the registry maps the reference's path to that actor
+    now, or the reference is a context's own ref object whose cache holds that actor *)
+Theorem C03_routing_actor s r y :
+  fst (resolve s r) = MbActor y ->
+  (exists p, ref_path s r = Some p /\ alookup (reg s) p = Some y) \/
+  (exists a x, r = RObj a /\ get s a = Some x /\ a_cache x = Some y).
+Proof. exact (routing_actor s r y). Qed.
+
+(** a reference without a filled cache (parsed / cloned: [RFresh p]; or a ref object never resolved before) is
+    routed by the registry alone: registered -> that actor; unregistered root path -> the root; any other
+    unregistered path (never existed, or released) -> the dead-letter mailbox, NOT the root *)
+Theorem C03_routing_uncached s r p :
+  (r = RFresh p \/ exists a x, r = RObj a /\ get s a = Some x /\ a_cache x = None /\ a_path x = p) ->
+  fst (resolve s r) = match alookup (reg s) p with
+                      | Some y => MbActor y
+                      | None => if path_eqb p [] then MbRoot else MbDead
+                      end.
+Proof. exact (routing_uncached s r p). Qed.
+
+(** a filled cache wins over the registry (the mailbox of a released actor stays reachable through its own
+    ref object: its HandleEnvelop then reports the message, see (b)) *)
+Theorem C03_routing_cached s a x y :
+  get s a = Some x -> a_cache x = Some y -> resolve s (RObj a) = (MbActor y, s).
+Proof. exact (routing_cached s a x y). Qed.
+
+(** "filled earlier": in every reachable state the registry maps a path only to an actor created under that
+    path, and a filled cache names an actor created under the path of the ref object's owner (caches are filled
+    from the registry by [resolve] only and never change afterwards) ... *)
+Theorem C03_routing_tables_reachable s :
+  reachable s ->
+  (forall p y, alookup (reg s) p = Some y -> exists xy, get s y = Some xy /\ a_path xy = p) /\
+  (forall a x y, get s a = Some x -> a_cache x = Some y -> exists xy, get s y = Some xy /\ a_path xy = a_path x).
+Proof. exact (reachable_route_ok s). Qed.
+
+(** ... hence no misrouting: however the sender obtained the reference (ActorOf's ref object, a clone, a parsed
+    string), an envelope routed to an actor's mailbox goes to an actor created under the very path the reference names *)
+Theorem C03_routing_same_path s r y :
+  reachable s -> fst (resolve s r) = MbActor y -> exists xy, get s y = Some xy /\ ref_path s r = Some (a_path xy).
+Proof. exact (routed_same_path s r y). Qed.
+
+(** delivering to the dead-letter mailbox inserts exactly one envelope - the dead-letter report of [e], a
+    user-level message from the root - at the tail of the root's user queue and changes nothing else *)
+Theorem C03_deliver_dead s e x0 :
+  get s 0 = Some x0 ->
+  deliver s MbDead e =
+  (set_actor s 0 (set_mb x0 (a_sq x0)
+                         (a_uq x0 ++ [{| e_sys := false; e_sender := root_ref; e_msg := MDeadLetter (e_sys e) (e_msg e) |}])
+                         (a_paused x0) (a_cons x0) (a_cur x0)), 0).
+Proof. exact (deliver_dead s e x0). Qed.
+
+(** ============================ (b) HandleEnvelop on a user message ============================ *)
+
+(** [user_outcome x e] (Actor/SpecMail.v) is a total function of the target's record: exactly one of four
+    cases applies to every handler call on a user message *)
+
+(** (i) the actor is alive (running; or stopping and the envelope is a system one) and not a zombie: the
+    behaviour is invoked on the message - the invocation [OSeen] is logged with the current instance and the
+    behaviour-stack mode peeked at the start - and no dead letter / drop is recorded by this handler call.
+    (Whether the message then ends in the stash is the script's AStash, see (c).) *)
+Theorem C03_handle_processed s a x e tag acts p :
+  get s a = Some x -> a_cons x = CH e -> e_msg e = MUser tag acts ->
+  user_outcome x e = OutProcessed -> a_parent x = Some p ->
+  (exists l, olog (step s (EvHandle a)) = olog s ++ OSeen a (a_inst x) (mode_top x) (MUser tag acts) :: l) /\
+  ghost (step s (EvHandle a)) = ghost s.
+Proof. exact (outcome_processed s a x e tag acts p). Qed.
+
+(** (i') the running guard (root) is given the message and ignores it: guard.Actor.OnReceive has no case for it *)
+Theorem C03_handle_processed_root s a x e tag acts :
+  get s a = Some x -> a_cons x = CH e -> e_msg e = MUser tag acts ->
+  user_outcome x e = OutProcessed -> a_parent x = None ->
+  step s (EvHandle a) = set_actor s a (handled x (Some e)).
+Proof. exact (outcome_processed_root s a x e tag acts). Qed.
+
+(** (ii) the documented exception: a zombie consumes the message; nothing is observed, nothing is sent, the
+    whole step only returns the consumer to its loop *)
+Theorem C03_handle_zombie s a x e tag acts :
+  get s a = Some x -> a_cons x = CH e -> e_msg e = MUser tag acts -> user_outcome x e = OutZombie ->
+  step s (EvHandle a) = set_actor s a (handled x (Some e)).
+Proof. exact (outcome_zombie s a x e tag acts). Qed.
+
+(** (iii) the actor is stopping / stopped, not a zombie, not the root: no behaviour runs; the handler's whole
+    program is: enqueue one dead-letter report of [e] at the root (actor 0), finish the enqueue, return *)
+Theorem C03_handle_dead_letter s a x e tag acts :
+  get s a = Some x -> a_cons x = CH e -> e_msg e = MUser tag acts -> user_outcome x e = OutDeadLetter ->
+  step s (EvHandle a) =
+  set_actor s a (upd_pend (busy x)
+    [IEnqMb 0 {| e_sys := false; e_sender := root_ref; e_msg := MDeadLetter (e_sys e) (MUser tag acts) |}; IEnqDone; IEndHandler]).
+Proof. exact (outcome_dead_letter s a x e tag acts). Qed.
+
+(** (iv) the stopped root: after the system has stopped an undeliverable message is dropped - recorded in the
+    ghost log - and nothing at all is sent (no further work) *)
+Theorem C03_handle_dropped s a x e tag acts :
+  get s a = Some x -> a_cons x = CH e -> e_msg e = MUser tag acts -> user_outcome x e = OutDropped ->
+  step s (EvHandle a) = add_ghost (set_actor s a (handled x (a_cur x))) (ODropped (MUser tag acts)).
+Proof. exact (outcome_dropped s a x e tag acts). Qed.
+
+(** the dead branch is the same for every kind of message (in particular for the dead-letter reports
+    themselves at the stopped root: they are dropped, not re-wrapped - no loop) *)
+Theorem C03_handle_dead_any s a x e :
+  get s a = Some x -> a_cons x = CH e -> a_zombie x = false -> is_dead x e = true ->
+  step s (EvHandle a) =
+  match a_parent x with
+  | Some _ => set_actor s a (upd_pend (busy x) (dead_report e))
+  | None => add_ghost (set_actor s a (handled x (a_cur x))) (ODropped (e_msg e))
+  end.
+Proof. exact (handle_dead s a x e). Qed.
+
+(** ============================ (c) the guard publishes each report once; the stash ============================ *)
+
+(** the running guard handling a dead-letter report appends exactly one [ODeadLetter] to the ghost log and
+    publishes one DeathLetterEvent: with no subscriber the handler is finished, otherwise its whole remaining
+    program is the one fan-out [IEnqAny] to the subscribers *)
+Theorem C03_dead_letter_published_once s a x e sys m :
+  get s a = Some x -> a_cons x = CH e -> e_msg e = MDeadLetter sys m -> a_parent x = None ->
+  a_zombie x = false -> is_dead x e = false ->
+  step s (EvHandle a) =
+  add_ghost (set_actor s a
+      match subscribers s evDeathLetter with
+      | [] => handled x (Some e)
+      | l => upd_pend (set_mb x (a_sq x) (a_uq x) (a_paused x) (CBusy (mode_top x)) (Some e))
+                      [IEnqAny false (map (fun p => RObj (snd p)) l) root_ref (MEvent evDeathLetter (dl_payload m)); IEndHandler]
+      end) (ODeadLetter sys m).
+Proof. exact (handle_guard_dead_letter s a x e sys m). Qed.
+
+(** Stash appends the current envelope *)
+Theorem C03_stash_keeps s t h x e :
+  get s (self_of t) = Some x -> a_cur x = Some e ->
+  exec1 s t h (IAct AStash) = (set_actor s (self_of t) (set_stash x (a_stash x ++ [e])), []).
+Proof. exact (exec1_stash s t h x e). Qed.
+
+(** Unstash re-enqueues exactly the first k stashed envelopes, in order, into the own mailbox and keeps the
+    rest; k = 1 without argument, max(min(n, len), 0) with argument n *)
+Theorem C03_unstash s t h x n :
+  get s (self_of t) = Some x -> a_stash x <> [] ->
+  let k := match n with None => 1 | Some n => Z.to_nat (Z.max (Z.min n (Z.of_nat (length (a_stash x)))) 0) end in
+  exec1 s t h (IAct (AUnstash n)) =
+  (set_actor s (self_of t) (set_stash x (skipn k (a_stash x))),
+   flat_map (fun e => [IEnqMb (self_of t) e; IEnqDone]) (firstn k (a_stash x))).
+Proof. exact (exec1_unstash s t h x n). Qed.
+
+(** no other instruction changes any actor's stash (in particular not ICleanup and not IRestartFinish: the
+    stash survives a restart, and is kept - unreachable - by a terminated actor) *)
+Theorem C03_stash_untouched s t h i :
+  i <> IAct AStash -> (forall n, i <> IAct (AUnstash n)) ->
+  forall b, proj_at a_stash [] (fst (exec1 s t h i)) b = proj_at a_stash [] s b.
+Proof. exact (exec1_stash_frame s t h i). Qed.
+
+(** neither does HandleEnvelop's own bookkeeping (for any message kind), nor any queue operation: the stash is
+    changed by the user's Stash / Unstash calls only *)
+Theorem C03_stash_untouched_by_handle_envelop s a x e :
+  get s a = Some x -> forall b, proj_at a_stash [] (fst (dispatch s a x e)) b = proj_at a_stash [] s b.
+Proof. exact (dispatch_stash_frame s a x e). Qed.
+
+(** ============================ (e) stopped while paused ============================ *)
+
+(** the cleanup of a terminated actor ends with mailbox.Resume ... *)
+Theorem C03_cleanup_resumes s t h x :
+  get s (self_of t) = Some x ->
+  exists sends, snd (exec1 s t h ICleanup) = sends ++ [IPub evKilled (actor_key x); IResume1].
+Proof. exact (cleanup_ends_with_resume s t h x). Qed.
+
+(** ... and Resume's first CAS on a paused mailbox clears the flag and leaves the queues alone, so the user
+    envelopes still queued are then popped and handled by case (iii) *)
+Theorem C03_stopped_while_paused s t x rest :
+  pend_of s t = IResume1 :: rest -> get s (self_of t) = Some x -> a_paused x = true ->
+  exists x', get (step s (EvResume1 t)) (self_of t) = Some x' /\ a_paused x' = false /\ a_uq x' = a_uq x /\ a_sq x' = a_sq x.
+Proof. exact (step_resume1_unpauses s t x rest). Qed.
+
+(** ============================ (d) conservation ============================ *)
+
+(** once the model has been driven outside its domain it stays there: [err s' = false] for the last state of
+    a run says that every step of the run was a legal step *)
+Theorem C03_err_sticky s ev : err s = true -> err (step s ev) = true.
+Proof. exact (err_mono_step s ev). Qed.
+
+(** one equation for every event, every actor and both of its queues: what the event pops from the head,
+    followed by the queue afterwards, is the queue before followed by what the event pushes at the tail.
+    [pushed_to] is non-empty only for the one target of an [EvPush] (the resolved actor, or the root with the
+    dead-letter report for an unknown target), [popped_from] only for the actor of an [EvSysPop] / [EvUserPop]
+    whose consumer is in the popping position: nothing else ever changes a queue *)
+Theorem C03_queues_only_change_by_push_pop s ev b sys :
+  err (step s ev) = false ->
+  popped_from s ev b sys ++ (if sys then sq_at else uq_at) (step s ev) b =
+  (if sys then sq_at else uq_at) s b ++ pushed_to s ev b sys.
+Proof. exact (queue_step s ev b sys). Qed.
+
+(** the pending instruction lists of a reachable state are well formed ([wf], Actor/SpecMail.v): an actor's list is
+    non-empty only inside a handler and ends with the one IEndHandler; external callers hold API-level instructions *)
+Theorem C03_wf_reachable s : reachable s -> wf s.
+Proof. exact (reachable_wf s). Qed.
+
+Theorem C03_wf_step s ev : wf s -> err (step s ev) = false -> wf (step s ev).
+Proof. exact (fun W He => proj1 (step_wf_held s ev W He)). Qed.
+
+(** the envelope in a consumer's hands: put there by a pop, taken by the handler call, untouched by everything else *)
+Theorem C03_held_only_pop_and_handle s ev b :
+  wf s -> err (step s ev) = false ->
+  held_at (step s ev) b ++ handled_at s ev b = held_at s b ++ popped_from s ev b true ++ popped_from s ev b false.
+Proof. exact (fun W He => proj2 (step_wf_held s ev W He) b). Qed.
+
+(** accounting, for ANY class P of messages (e.g. [user_tag 7], [is_user], [dl_of (user_tag 7)]): in every
+    run from an initial state, the number of queue insertions of P-envelopes = the number still queued or in a
+    consumer's hands + the number of handler calls on P-envelopes.  So every inserted envelope is handled at
+    most once, and exactly once unless it is still in a mailbox (at quiescence: in the user queue of a paused
+    mailbox).  Each handler call on a user message falls in exactly one of the four cases of (b); an insertion
+    of a user message addressed to an unknown target IS the insertion of its dead-letter report ([landing]). *)
+Theorem C03_conservation P scs evs :
+  err (run_events evs (init_with scs)) = false ->
+  pushes P evs (init_with scs) = in_mail P (run_events evs (init_with scs)) + handles P evs (init_with scs).
+Proof. exact (conservation P scs evs). Qed.
+
+(** the same from any well-formed state *)
+Theorem C03_conservation_from P evs s :
+  wf s -> err (run_events evs s) = false ->
+  in_mail P (run_events evs s) + handles P evs s = in_mail P s + pushes P evs s.
+Proof. exact (in_mail_run P evs s). Qed.
+
+(** the ghost log of any run - apart from the guard's own "closed" marks - is exactly the concatenation, in order, of
+    what the handler calls of the run recorded ([dispatch_ghost], Actor/SpecMail.v): one [ODeadLetter sys m] for each
+    call of the running guard on a dead-letter report of m, one [ODropped] for each call of the stopped guard, nothing
+    for any other call.  With [C03_conservation] for the class [dl_of P]: every dead-letter report inserted is
+    published at most once, and exactly once when it is no longer in the guard's mailbox and the guard was running *)
+Theorem C03_ghost_log_is_the_handler_calls scs evs :
+  filter not_guard_closed (ghost (run_events evs (init_with scs))) =
+  filter not_guard_closed (run_ghost evs (init_with scs)).
+Proof. exact (ghost_run_init scs evs). Qed.
+
+(** ============================ examples ============================ *)
+Local Open Scope N_scope.
+
+(** a tell to a path that never existed, through a parsed reference: exactly one dead-letter event, nothing else *)
+Definition ex_unknown_scs : list (list action) := [[ATell (XPath [9]) 7 []]].
+Definition ex_unknown_evs : list event :=
+  [EvStart 0; EvPush (TX 0) 0; EvEnqDone (TX 0); EvSysPop 0; EvLoadPaused 0; EvUserPop 0; EvHandle 0;
+   EvSysPop 0; EvLoadPaused 0; EvUserPop 0].
+Example C03_ex_unknown_path :
+  let s := run_events ex_unknown_evs (init_with ex_unknown_scs) in
+  reachable s /\ quiescent s = true /\ ghost s = [ODeadLetter false (MUser 7 [])] /\ olog s = [].
+Proof.
+  cbv zeta. split; [exists ex_unknown_scs, ex_unknown_evs; split; [reflexivity|vm_compute; reflexivity]|].
+  vm_compute. repeat split.
+Qed.
+
+(** the accounting on that run: the tell is inserted as its dead-letter report (1 insertion, 1 handler call at the
+    guard), never as a plain user envelope *)
+Example C03_ex_unknown_path_accounting :
+  let s0 := init_with ex_unknown_scs in
+  pushes (user_tag 7) ex_unknown_evs s0 = 0%nat /\ pushes (dl_of (user_tag 7)) ex_unknown_evs s0 = 1%nat /\
+  handles (dl_of (user_tag 7)) ex_unknown_evs s0 = 1%nat /\ in_mail (dl_of (user_tag 7)) (run_events ex_unknown_evs s0) = 0%nat.
+Proof. vm_compute. repeat split. Qed.
+
+Print Assumptions C03_routing_actor.
+Print Assumptions C03_routing_uncached.
+Print Assumptions C03_routing_cached.
+Print Assumptions C03_routing_tables_reachable.
+Print Assumptions C03_routing_same_path.
+Print Assumptions C03_deliver_dead.
+Print Assumptions C03_handle_processed.
+Print Assumptions C03_handle_processed_root.
+Print Assumptions C03_handle_zombie.
+Print Assumptions C03_handle_dead_letter.
+Print Assumptions C03_handle_dropped.
+Print Assumptions C03_handle_dead_any.
+Print Assumptions C03_dead_letter_published_once.
+Print Assumptions C03_stash_keeps.
+Print Assumptions C03_unstash.
+Print Assumptions C03_stash_untouched.
+Print Assumptions C03_cleanup_resumes.
+Print Assumptions C03_stopped_while_paused.
+Print Assumptions C03_err_sticky.
+Print Assumptions C03_queues_only_change_by_push_pop.
+Print Assumptions C03_wf_reachable.
+Print Assumptions C03_wf_step.
+Print Assumptions C03_held_only_pop_and_handle.
+Print Assumptions C03_conservation.
+Print Assumptions C03_conservation_from.
+Print Assumptions C03_ghost_log_is_the_handler_calls.
+Print Assumptions C03_stash_untouched_by_handle_envelop.
